@@ -1,4 +1,51 @@
-(** Wire entry points of property C08 (stub: replaced when the model is built). *)
-From Coq Require Import ZArith List.
-From PLV Require Import Base.Wire.
-Definition entry (sub : Z) (inp : list Z) : list Z := bad_input.
+(** Wire entry points of C08 (round trip) and C13 (inert output):
+    sub 0: [protection 0..4] [sls: bmc blc ac ineq] [string]  ->  "ok <text>" | "fail"
+    sub 1: [xml?] [protection 0..4] [policy 0..4] [string]
+           ->  "enc <latex> ascii=T|F parsed c e m" | "enc <latex> ... perr <pos>" | "valueerror" | "other" *)
+From Coq Require Import NArith ZArith List Bool.
+From PLV Require Import Base.PyStr Base.Wire Tok.TokWire L2T.L2T L2T.L2TWire Enc.RoundTrip.
+From PLV Require Enc.Encoder.
+Import ListNotations.
+
+Definition rd_prot : rd Enc.Encoder.prot :=
+  fun l => match l with
+           | 0%Z :: r => Some (Enc.Encoder.PNone, r) | 1%Z :: r => Some (Enc.Encoder.PBraces, r)
+           | 2%Z :: r => Some (Enc.Encoder.PBracesAll, r) | 3%Z :: r => Some (Enc.Encoder.PBracesAlmostAll, r)
+           | 4%Z :: r => Some (Enc.Encoder.PBracesAfterMacro, r) | _ => None end.
+Definition rd_policy : rd Enc.Encoder.policy :=
+  fun l => match l with
+           | 0%Z :: r => Some (Enc.Encoder.UKeep, r) | 1%Z :: r => Some (Enc.Encoder.UReplace, r)
+           | 2%Z :: r => Some (Enc.Encoder.UIgnore, r) | 3%Z :: r => Some (Enc.Encoder.UFail, r)
+           | 4%Z :: r => Some (Enc.Encoder.UUnihex, r) | _ => None end.
+
+Definition entry_roundtrip (inp : list Z) : list Z :=
+  match bind rd_prot (fun p => bind rd_sls (fun sl => bind rd_str (fun s => ret (p, sl, s)))) inp with
+  | Some ((p, sl, s), _) =>
+      match roundtrip p sl s with
+      | Some t => to_wire ([111;107;32]%N ++ show_str t)
+      | None => to_wire [102;97;105;108]%N
+      end
+  | None => bad_input
+  end.
+
+Definition entry_inert (inp : list Z) : list Z :=
+  match bind rd_bool (fun x => bind rd_prot (fun p => bind rd_policy (fun pol => bind rd_str (fun s =>
+        ret (x, p, pol, s))))) inp with
+  | Some ((x, p, pol, s), _) =>
+      match encode_builtin x p pol s with
+      | EncValueError => to_wire [118;97;108;117;101;101;114;114;111;114]%N
+      | EncOther => to_wire [111;116;104;101;114]%N
+      | EncOk t =>
+          let head := [101;110;99;32]%N ++ show_str t ++ [32;97;115;99;105;105;61]%N ++ show_bool (is_ascii_str t) in
+          to_wire (head ++ match parse_encoded t with
+                           | IParsed c e m => [32;112;97;114;115;101;100;32]%N ++ show_nat c ++ [32%N] ++ show_nat e
+                                              ++ [32%N] ++ show_nat m
+                           | IParseError pos => [32;112;101;114;114;32]%N ++ show_opt show_nat pos
+                           | IOther => [32;111;116;104;101;114]%N
+                           end)
+      end
+  | None => bad_input
+  end.
+
+Definition entry (sub : Z) (inp : list Z) : list Z :=
+  if Z.eqb sub 0 then entry_roundtrip inp else if Z.eqb sub 1 then entry_inert inp else bad_input.
